@@ -39,6 +39,7 @@ class ConvRun:
         self.t_get = []       # (time, item)
         self.t_grant_get = []
         self.t_cancel_get = []
+        self.t_cancel_put = []
         self.t_offer = {}     # id(item) -> first instant seen in ready_items
         self.max_occ = 0
         self.occ_gt_cap = None
@@ -58,10 +59,20 @@ class ConvRun:
             self.req_put.append(env.now)
             tok = self.edge.reserve_put()
             yield tok
+            pcancel = self.case.get("pcancel")
+            if pcancel and i < len(pcancel) and pcancel[i]:
+                # what a FIRST_AVAILABLE fan-out node does to the out-edges it did not pick: the granted admission is
+                # withdrawn zero to two kernel hops after the grant, nothing enters
+                for _hop in range(int(pcancel[i]) - 1):
+                    yield env.timeout(0)
+                self.t_cancel_put.append(env.now)
+                self.req_put.pop()              # req_put lists the requests that bring an item
+                tok.resourcename.reserve_put_cancel(tok)
+                continue
             hold = self.case.get("hold")
             if hold and i < len(hold) and hold[i] > 0:
                 yield env.timeout(hold[i])      # loading time between the grant and the put
-            it = Item("x%d" % i)
+            it = Item("x%d" % len(self.items))
             it.length = il
             self.items.append(it)
             self.t_put.append(env.now)
